@@ -524,7 +524,8 @@ def _tests_of(fn: ast.AST) -> List[ast.AST]:
 
 def falsy_and_absent_sites(fn: ast.AST, doc_params: Set[str],
                            skip_receivers: Set[str],
-                           containers: Set[str] = frozenset()  # type: ignore
+                           containers: Set[str] = frozenset(),  # type: ignore
+                           doc_exprs: Set[str] = frozenset()  # type: ignore
                            ) -> Tuple[List[Tuple[ast.AST, str]], int]:
     """(violations, number of tests examined): truthiness decisions on a
     document value, and None-tests on the result of a defaultless .get()."""
@@ -542,11 +543,26 @@ def falsy_and_absent_sites(fn: ast.AST, doc_params: Set[str],
                 isinstance(n.targets[0], ast.Name) and \
                 _is_defaultless_get(n.value, skip_receivers):
             got[n.targets[0].id] = n.value   # type: ignore[assignment]
+    # bool(x) of a document value is the same decision taken as a value
+    for c in walk_local(fn):
+        if isinstance(c, ast.Call) and isinstance(c.func, ast.Name) and \
+                c.func.id == "bool" and len(c.args) == 1 and \
+                taint.is_doc(c.args[0]) and not _bool_guarded(c):
+            bad.append((c, "`{}` turns a document value into its "
+                        "truthiness: the text 'false' (any non-empty text) "
+                        "becomes True".format(src(c))))
     tests = _tests_of(fn)
     for t in tests:
         for e in _truth_operands(t):
             if isinstance(e, ast.Name) and e.id in containers:
                 continue    # emptiness of a value annotated as a container
+            if src(e) in doc_exprs or (
+                    "<.node>" in doc_exprs and isinstance(e, ast.Attribute)
+                    and e.attr == "node"):
+                bad.append((e, "branches on the truthiness of the document "
+                            "`{}`: an empty document ({{}}, [], 0, '') is "
+                            "treated like an absent one".format(src(e))))
+                continue
             if taint.is_doc(e) and not (isinstance(e, ast.Name) and
                                         e.id in got):
                 bad.append((e, "branches on the truthiness of the document "
@@ -573,6 +589,19 @@ def falsy_and_absent_sites(fn: ast.AST, doc_params: Set[str],
     return bad, len(tests)
 
 
+def _bool_guarded(call: ast.Call) -> bool:
+    """bool(x) under an isinstance(x, (..bool..)) test is a conversion of a
+    boolean, not a truthiness decision."""
+    arg = src(call.args[0])
+    for f in facts_at(call):
+        if f.kind == "cond" and f.pol and isinstance(f.expr, ast.Call) and \
+                src(f.expr.func) == "isinstance" and \
+                src(f.expr.args[0]) == arg and \
+                "ool" in src(f.expr.args[1]):
+            return True
+    return False
+
+
 def _is_defaultless_get(e: Optional[ast.AST], skip: Set[str]) -> bool:
     return isinstance(e, ast.Call) and isinstance(e.func, ast.Attribute) \
         and e.func.attr == "get" and \
@@ -593,6 +622,33 @@ def f(self, path, data: Any, lhs: CommentedMap, key):
     if a is None:
         pass
 """
+
+
+def falsy_rule(chk: Check, rid: str, relpath: str, floor: int,
+               doc_exprs: Set[str] = frozenset()) -> None:  # type: ignore
+    """The truthiness / defaultless-get rule applied to another module."""
+    prog = chk.prog
+    chk.rule(rid, "no function of {} decides on the truthiness of a "
+             "document value or on `is None` of a defaultless .get()".format(
+                 relpath), floor=floor)
+    sample = ast.parse(_POSITIVE).body[0]
+    from sa.model import set_parents
+    set_parents(sample)
+    hits, _ = falsy_and_absent_sites(sample, {"data", "lhs"}, set())
+    if len(hits) != 3:
+        raise AnalysisError("falsy/absent detector lost its positive sample")
+    for fi in prog.funcs_in(relpath):
+        kw = fi.node.args.kwarg.arg if fi.node.args.kwarg else ""
+        conts = {a.arg for a in fi.node.args.args
+                 if a.annotation is not None and
+                 src(a.annotation).split("[")[0] in DOC_ANNOTATIONS[1:]}
+        bad, n = falsy_and_absent_sites(fi.node, _doc_params(fi),
+                                        {kw} if kw else set(), conts,
+                                        doc_exprs)
+        for node, why in bad:
+            chk.fail(rid, fi, node, src(node)[:60], why)
+        chk.ok(rid, fi, fi.node, "{} test(s) in {}".format(n, fi.short),
+               "none consults the truthiness of a document value", False)
 
 
 def d4b_falsy(chk: Check) -> None:
@@ -621,6 +677,66 @@ def d4b_falsy(chk: Check) -> None:
         chk.ok("C06-D4b", fi, fi.node, "{} test(s) in {}".format(
             n, fi.short), "none consults the truthiness of a document value",
             False)
+
+
+def d4c_fresh_report(chk: Check) -> None:
+    """compare_to(): the report of an earlier comparison is discarded on
+    every path, before anything can return; and nothing but the comparers
+    (through one comparison) appends to it."""
+    from sa.flow import Flow
+    prog = chk.prog
+    chk.rule("C06-D4c", "compare_to empties the entry list on every path "
+             "before it can return, and then runs the type-directed "
+             "comparison of the two documents", floor=2)
+    fi = prog.func("Differ.compare_to")
+    chk.analysed(fi)
+    doc = fi.params()[1]
+    # the attribute the entries are appended to (role: most appended list)
+    lst = None
+    for g in prog.funcs_in(DIFFER):
+        for c in walk_local(g.node):
+            if isinstance(c, ast.Call) and isinstance(c.func, ast.Attribute) \
+                    and c.func.attr == "append" and c.args and \
+                    isinstance(c.args[0], ast.Call) and \
+                    src(c.args[0].func) == "DiffEntry":
+                lst = src(c.func.value)
+    if lst is None:
+        raise AnalysisError("entry list of the differ not found")
+
+    def transfer(stmt: ast.stmt, st, flow):
+        cleared, compared = st
+        for c in ast.walk(stmt):
+            if isinstance(c, ast.Call) and src(c.func) == lst + ".clear":
+                cleared = True
+            if isinstance(c, ast.Call) and \
+                    src(c.func).endswith("._diff_between"):
+                compared = cleared and "ordered"
+        if isinstance(stmt, ast.Assign) and src(stmt.targets[0]) == lst and \
+                src(stmt.value) in ("[]", "list()"):
+            cleared = True
+        return [(cleared, compared)]
+
+    def branch(test: ast.AST, st, flow):
+        return [st], [st]
+    out = Flow(transfer, branch).run(fi.node.body, [(False, False)])
+    ends = list(out.fall) + [st for st, _ in out.returns]
+    if ends and all(e[0] for e in ends):
+        chk.ok("C06-D4c", fi, fi.node, "clear on every path",
+               "{} exit state(s), the list is emptied on each".format(
+                   len(set(ends))))
+    else:
+        chk.fail("C06-D4c", fi, fi.node, "clear on every path",
+                 "compare_to can return without emptying `{}`: a reused "
+                 "Differ reports the entries of its previous comparison"
+                 .format(lst))
+    if ends and all(e[1] == "ordered" for e in ends):
+        chk.ok("C06-D4c", fi, fi.node, "comparison on every path",
+               "_diff_between runs after the clear on every path")
+    else:
+        chk.fail("C06-D4c", fi, fi.node, "comparison on every path",
+                 "some path through compare_to returns without comparing "
+                 "the documents (identity of the operands is not equality "
+                 "of a report: SAME entries are part of it)")
 
 
 # ---------------------------------------------------------------- D5 ------
@@ -699,5 +815,6 @@ def run(chk: Check) -> None:
     d3_modes(chk)
     d4_absent(chk)
     d4b_falsy(chk)
+    d4c_fresh_report(chk)
     d5_both_sides(chk)
     d6_exit_and_ladders(chk)
